@@ -7,7 +7,7 @@
    Idealised primitives are Section variables: the two raw digests used by tmcg_g (gcry_md_hash_buffer with SHA-256 resp.
    SHA3-256), the quadratic-residue test and the four-square-roots routine of mpz_sqrtm.cc (property C09), mpz_jacobi and
    mpz_probab_prime_p.  The heap contents found in the freshly allocated (uninitialised) export buffers are an explicit
-   argument `heap`.  Text is `list N` (bytes).  Definitions only -- proofs live in RabinLemmas.v. *)
+   argument `heap` (RabinLemmas shows that verify does not depend on it and that decrypt depends on it only for a zero root).  Text is `list N` (bytes).  Definitions only -- proofs live in RabinLemmas.v. *)
 From Coq Require Import ZArith NArith List Bool.
 From LT Require Import gen_Consts CodecModel Zbase.
 Import ListNotations.
@@ -153,7 +153,7 @@ Definition verify_core (m : Z) (heap data : bytes) (v : Z) : outcome :=
   else if (mn <=? md + K0)%nat then Reject
   else
     let foo := ((v * v) mod Z.abs m)%Z in
-    if (sizeinbase2 foo >? Z.of_nat mn * 8)%Z then Reject
+    if (sizeinbase2 foo >? Z.of_nat mn * 8)%Z || (foo =? 0)%Z then Reject     (* fix 5f58cf8: zero square refused *)
     else
       let written := export_bytes mn foo in
       if (mn + slack <? length written)%nat then Overflow
@@ -247,7 +247,7 @@ Fixpoint try_roots (s : nat) (heap : bytes) (rs : list Z) : dec_out :=
   match rs with
   | [] => DecReject
   | root :: rest =>
-    if (sizeinbase2 root / 8 <=? Z.of_nat s)%Z then
+    if (sizeinbase2 root <=? Z.of_nat s * 8)%Z then                          (* fix 288af9c: at most one word *)
       let written := export_bytes s root in
       if (s + slack <? length written)%nat then DecOverflow
       else
